@@ -217,8 +217,7 @@ def rule_r2(ctx):
             ctx.r.violation(rid, key_of(f, None, "clear-guard"), "the clearing of previous headers is not on the 'exc_info and head not yet written' path", f.loc(c.ast))
 
 
-def rule_r3(ctx):
-    rid = "C08.R3"
+def rule_r3(ctx, rid="C08.R3"):
     ctx.r.rule(rid, "hop-by-hop header names (exactly RFC 2616 13.5.1's eight, lower-cased comparison) are refused")
     p = ctx.p
     f, g = _closure(ctx)
